@@ -13,6 +13,7 @@ func init() {
 }
 
 func checkC01(c *Ctx) {
+	checkControllerTable(c) // for the controller's cache: every list result is synced and every watch event applied (none skipped or pre-filtered)
 	checkCombinators(c) // "the current filter accepts it": Accept of the library's own filters is the documented function of (filter, object)
 	m := newCacheModel(c)
 	m.checkDoUpdate()
@@ -63,6 +64,8 @@ func init() {
 }
 
 func checkC03(c *Ctx) {
+	checkClientRequestFlows(c) // the list the controller converges to is the whole collection (one request with the caller's options, nothing truncated)
+	checkRootForwarders(c) // subscribers hang off a publisher that has been running since Create (nothing is replayed late)
 	checkSessionTable(c) // only object frames become events: a status or bookmark frame never reaches the cache
 	checkControllerTable(c)
 	checkReadyPlumbing(c) // includes: controller cache built with the builder's filter
@@ -113,6 +116,7 @@ func init() {
 }
 
 func checkC13(c *Ctx) {
+	checkControllerTable(c) // the lister's result is consumed by the controller loop itself (the period restarts at consumption)
 	checkWatcherTable(c) // the controller calls the watcher synchronously before every select: a watcher that can block wedges the relist cycle
 	checkListHelpers(c) // a list call is bounded only by shutdown (no per-call deadline that turns a slow list into a fatal error)
 	checkNoSleep(c)
@@ -135,6 +139,10 @@ func init() {
 }
 
 func checkC16(c *Ctx) {
+	m16 := newCacheModel(c)
+	m16.checkRunLoop() // List() is answered by doList at that moment
+	m16.checkDoUpdate()
+	m16.checkDoSync()
 	newCacheModel(c).checkDoList() // the list handed to OnInitialize is a private snapshot
 	checkSubscriptionTable(c) // callbacks in publication order: the subscription hand-off under the monitor forwards in order or drops, never reorders
 	for _, r := range typedRelsQuick(c) {
@@ -224,6 +232,8 @@ func init() {
 var rootRels = []string{"", "join", "client"}
 
 func checkC12(c *Ctx) {
+	checkPeriodFlow(c) // newTicker always returns a running ticker whose Done() closes after Stop()
+	checkTickerTable(c)
 	checkCtorCompletes(c)
 	checkPublisherFanout(c) // the drain counts one unsubscribe per registered subscription: nothing but the unsubscribe arm may remove one
 	checkNoSleep(c)
@@ -262,6 +272,9 @@ func checkC12(c *Ctx) {
 }
 
 func checkC11(c *Ctx) {
+	for _, r := range typedRelsQuick(c) {
+		checkTypedRobustness(c, r) // a typed clone is a child of the typed controller it was cloned from (plain forwards to the parent)
+	}
 	checkCtorCompletes(c)
 	checkCloneFresh(c) // closing one clone never closes a sibling: every Clone* call builds its own controller
 	checkRootForwarders(c)
@@ -288,6 +301,10 @@ func typedRelsQuick(c *Ctx) []string {
 }
 
 func checkC10(c *Ctx) {
+	checkMonitorTable(c) // a lagging handler still gets one callback per event it receives, in order (nothing folded or re-ordered)
+	for _, r := range typedRelsQuick(c) {
+		checkTypedMonitor(c, r)
+	}
 	checkGeneratedJoinShape(c) // a join re-derives its selection from the source cache on every callback, so events its (lossy) monitor dropped heal at the next one
 	checkCtorChannelCapacities(c)
 	if c.Tier == "thorough" {
@@ -478,6 +495,8 @@ func checkC08(c *Ctx) {
 }
 
 func checkC14(c *Ctx) {
+	checkNotRunningErrors(c) // a request to the watcher fails only when the watcher is shutting down (no timeout that would turn a slow watch into a fatal error)
+	checkRequestChannelPairing(c)
 	checkAppendBases(c, []string{""}) // extractList starts empty
 	checkFilterSubscriptionTable(c) // "the whole subtree shuts down": every consumer leaves its loop when its parent's events close
 	checkPublisherTable(c)
@@ -501,6 +520,8 @@ func checkC14(c *Ctx) {
 }
 
 func checkC15(c *Ctx) {
+	checkRootForwarders(c) // Cache() of a clone IS the parent's cache (no memo in between)
+	checkPublisherTable(c)
 	checkControllerTable(c) // a relist reaches the cache as ONE sync request (readers never see a half-applied list)
 	checkAppendBases(c, []string{""}) // the snapshot starts empty
 	checkAcceptPurity(c)            // filters are shared by the cache goroutines of all subscriptions: Accept must not write
